@@ -15,6 +15,7 @@ use std::{
 pub mod pure;
 pub mod conn;
 pub mod node;
+pub mod cfg;
 
 pub fn hex(b: &[u8]) -> String {
     let mut s = String::with_capacity(b.len() * 2 + 1);
@@ -68,6 +69,9 @@ fn run_line(line: &str) -> String {
         return r;
     }
     if let Some(r) = node::run(op, a) {
+        return r;
+    }
+    if let Some(r) = cfg::run(op, a) {
         return r;
     }
     format!("unknown-op {}", op)
